@@ -107,6 +107,7 @@ pub fn replay_hist(ctx: &NetCtx, c: &Value, rep: &mut Report) {
         }
         for (step, op) in ops.iter().enumerate() {
             let name = op["op"].as_str().unwrap();
+            let mut add_outcome: Option<bool> = None;
             let r = guarded(|| {
                 match name {
                     "use" | "enable" | "disable" => obj.tags(name, &strs(&op["tags"])),
@@ -121,6 +122,23 @@ pub fn replay_hist(ctx: &NetCtx, c: &Value, rep: &mut Report) {
                         if let Obj::B(b, _) = &mut obj {
                             b.optimize()
                         }
+                    }
+                    "useres" => {
+                        let names = strs(&op["res"]);
+                        let rs: Vec<_> = names.iter().filter_map(|n| ctx.resources.iter().find(|r| &r.name == n).cloned()).collect();
+                        match &mut obj {
+                            Obj::E(e, _) => e.use_resources(rs),
+                            Obj::B(_, st) => *st = ResourceStorage::from_resources(rs),
+                        }
+                    }
+                    "addres" => {
+                        let n = op["res"].as_str().unwrap();
+                        let r = ctx.resources.iter().find(|r| r.name == n).cloned().expect("resource of the pool");
+                        let ok = match &mut obj {
+                            Obj::E(e, _) => e.add_resource(r).is_ok(),
+                            Obj::B(_, st) => st.add_resource(r).is_ok(),
+                        };
+                        add_outcome = Some(ok);
                     }
                     "discard" => obj.discard(),
                     "serialize" => {
@@ -142,6 +160,13 @@ pub fn replay_hist(ctx: &NetCtx, c: &Value, rep: &mut Report) {
                 rep.mismatch(json!({"what": "hist-op", "history": ops_brief(ops, step), "opt": opt, "aggressive": aggressive,
                                     "observed": "panic", "panic": p, "devs": []}));
                 break;
+            }
+            if let Some(ok) = add_outcome {
+                rep.evaluations += 1;
+                if json!(ok) != op["ok"] {
+                    rep.mismatch(json!({"what": "add_resource-outcome", "mode": mode, "history": ops_brief(ops, step), "observed": ok,
+                                        "allowed": [op["ok"]], "devs": []}));
+                }
             }
             // C07: the enabled set after every operation
             let want = sorted_set(&op["now"]);
@@ -198,6 +223,8 @@ fn ops_brief(ops: &[Value], upto: usize) -> Value {
             match n {
                 "use" | "enable" | "disable" => format!("{}{:?}", n, strs(&o["tags"])),
                 "add" => format!("add({})", o["rule"].as_str().unwrap_or("")),
+                "useres" => format!("use_resources{:?}", strs(&o["res"])),
+                "addres" => format!("add_resource({})", o["res"].as_str().unwrap_or("")),
                 other => other.to_string(),
             }
         })
